@@ -218,6 +218,9 @@ def _smoothing_call(ck: Checker, f, scope: List[ast.stmt], raw_name: str, dt_exp
         ck.violation(P + "R3", q, f"{what}: smoothing call", f"expected one call of a SMOOTHING_OPERATORS entry, found {len(calls)}", loc=f.loc())
         return None
     c, callee = calls[0]
+    if getattr(getattr(callee, "func", None), "__name__", "") not in ("getitem", "get") and not callee.is_Symbol:
+        # the registry entry is wrapped in an object that is called instead (its __call__ is not analysed here)
+        raise AnalysisError(f"{q}: the smoothing operator is called through `{str(callee)[:80]}`, an object whose call is not analysed")
     from ..astutil import bind_call
     b = bind_call(c, OPERATOR_PARAMS)
     problems = []
